@@ -789,7 +789,7 @@ pub fn execute(scn: &Scn, property: &str) -> RunOutcome {
     }
     if property == "C08" {
         // the struct-shape dimension: one of the additional shapes, same operation trace
-        let which = (scn.repartition_seed % 9) as usize;
+        let which = (scn.repartition_seed % 10) as usize;
         let variant = (scn.repartition_seed >> 3) & 7;
         out.count(&format!("shape_run.{}", crate::shapes::SHAPE_NAMES[which]));
         out.evaluations += 1;
